@@ -297,6 +297,42 @@ def rule_g2(ctx, F):
     text_gate(ctx, "G2", fn, sets, [("a state is split off only when the predicate says it conflicts", [(("should_split",), True), (("call_mut",), True), (("FnMut",), True)])], accept_desc="marking a state as split")
 
 
+def rule_u1(ctx, F):
+    """U1: a parse state's reductions are short-circuited ("unit reduction") only if every action in
+    it is the same single-child reduce (production 0) of a symbol that leaves no trace in the tree —
+    not named, not aliased (simple or per-production), not a supertype, not an extra — and the state
+    is not EOF-gated.  Dropping one of these tests removes nodes from trees the unoptimised parser builds."""
+    fn = find_fn(ctx, F, "Minimizer::remove_unit_reductions", "U1")
+    if not fn:
+        return
+    accept = []
+    for pt, e in fn.points():
+        for x in own_walk(e):
+            if x.get("k") == "assign" and strip(x["l"]).get("k") == "ref" and "Option<&" in (strip(x["l"]).get("t") or "") and not str(strip(x["l"]).get("name", "_")).startswith("_"):
+                r = rsrules.cond_def(fn, x["r"])
+                if r.get("k") == "agg" and r.get("variant") == "Some":
+                    accept.append(pt)
+    ctx.floor("acceptances of a unit-reduction symbol", len(accept), 1)
+    text_gate(ctx, "U1", fn, accept, [
+        ("the action is a reduce", [(("discriminant(*", "=Reduce"), True)]),
+        ("…of a single child", [((".as:Reduce.child_count", "=1"), True)]),
+        ("…by production 0 (no fields, no per-production aliases)", [((".as:Reduce.production_id", "=0"), True), ((".as:Reduce.production_id", "=default"), True)]),
+        ("the symbol has no simple alias", [(("simple_aliases", "contains_key"), False)]),
+        ("…is not a supertype", [(("supertype_symbols", "contains"), False)]),
+        ("…is not an extra", [(("extra_symbols", "contains"), False)]),
+        ("…is not aliased in any production", [(("HashSet", "contains("), False)]),
+        ("…and is not a named rule", [(("PartialEq::ne(", ".kind"), True)]),
+        ("all unit reductions of the state are of one symbol", [(("Option::<T>::is_none(",), True), (("PartialEq>::eq(",), True)]),
+    ], accept_desc="accepting a unit-reduction symbol")
+    ins = [pt for pt, c, d in calls_named(fn, "HashMap", "::insert")]
+    ins = [pt for pt in ins if True]
+    if ins:
+        text_gate(ctx, "U1", fn, ins[:1], [("a state is short-circuited only if all its actions were unit reductions", [(("only_unit_reductions",), True)]),
+                                          ("…and it is not EOF-gated", [(("has_eof_gated_reduce",), False)])], accept_desc="recording the state")
+    else:
+        ctx.bad("U1", "remove_unit_reductions:records-states", "remove_unit_reductions no longer records short-circuited states in a map")
+
+
 def rule_b1(ctx, F):
     """B1: bit-set discipline.  A single-bit mask `1 << (X % 64)` selects bit X only in word X / 64 of
     a multi-word bit set: wherever such a mask is and-ed / or-ed with a word, that word is indexed by
@@ -382,6 +418,7 @@ def run(ctx):
     rule_g1(ctx, F)
     rule_g2(ctx, F)
     rule_b1(ctx, F)
+    rule_u1(ctx, F)
     return ctx.finish(
         "Determinism scan and merge-licence gates over rustc MIR of tree-sitter-generate: no iteration over RandomState-hashed containers, no clock/thread/pid/env/random source, no pointer→integer casts; "
         "states_conflict vets every entry it consumes, token_conflicts/entries_conflict say `no conflict` only after all their tests, merging only under OptLevel::MergeStates. "
